@@ -28,6 +28,7 @@ RULE += ("  " + 'Also (round 6): 8-20 transfers of about one block each, one aft
 RULE += ("  " + 'Also (round 7): a session that sends USER for its own account again before each of 8-14 one-block transfers, with and without waiting for replies (user and user-connection level, both directions, with and without password): lower bound on the total duration.')
 RULE += ("  " + 'Also (round 8): USER for an unlimited account after an eighth of a transfer begun under a user / user-connection limit: the transfer keeps its limit.')
 RULE += ("  " + "Also (round 9): speed limits together with short time-outs (the pause a limit imposes is not the peer's silence).")
+RULE += ("  " + 'Also (round 10): USER for another account (with or without password, no PASS sent) after the 150 of a transfer whose data connection is not made yet (when=before_data); a refused USER (530) before each re-login of relogin_repeat.')
 ASSUMPTIONS = ["virtual time of the simulated loop; eps = half a byte per reset fold plus float slack",
                "the bound is cumulative since the first limited I/O (an idle period earns credit), as the statement says"]
 REQUIRED_MONITORS = ["bound_checks", "delay_checks", "unlimited_ops", "e2e_bound_checks", "e2e_duration", "relogin_duration", "relogin_shared", "relogin_repeat"]
